@@ -2429,4 +2429,126 @@ theorem accepts_iff_28D (s : Text) : (F28D.parse s).isOk = true ↔ Doc.F28D s :
       parseUInt_digits bne bmax, hgt, hz, Res.pure_eq]
     rfl
 
+
+/-! ### 28, 28C: a statement number of at most five digits and an optional sequence number -/
+
+theorem contains_false_of_ne (t : Text) (c : Char) (h : ∀ x ∈ t, x ≠ c) : t.contains c = false := by
+  induction t with
+  | nil => rfl
+  | cons a r ih =>
+    have ha : a ≠ c := h a (by simp)
+    have := ih (fun x hx => h x (by simp [hx]))
+    rw [List.contains_cons, this]
+    simp only [Bool.or_false, beq_eq_false_iff_ne, ne_eq]
+    exact fun e => ha e.symm
+
+/-- the documented format `5n[/<k>n]` of 28 (k = 2) and 28C (k = 5) -/
+def DocStmt (k : Nat) (s : Text) : Prop :=
+  ∃ a : Text, 1 ≤ a.length ∧ a.length ≤ 5 ∧ (∀ c ∈ a, c.isDigit = true) ∧
+    (s = a ∨ ∃ b : Text, s = a ++ '/' :: b ∧ 1 ≤ b.length ∧ b.length ≤ k ∧ ∀ c ∈ b, c.isDigit = true)
+
+theorem digits_no_slash (a : Text) (h : ∀ c ∈ a, c.isDigit = true) : ∀ c ∈ a, c ≠ '/' := by
+  intro c hc he; subst he; have := h _ hc; revert this; decide
+
+theorem accepts_iff_stmt (k mx : Nat) (_hk : 0 < k) (hmx : 10 ^ k ≤ mx + 1) (s : Text) :
+    (Stmt.parse k mx s).isOk = true ↔ DocStmt k s := by
+  constructor
+  · intro h
+    cases hp : Stmt.parse k mx s with
+    | err => rw [hp] at h; simp [Res.isOk] at h
+    | panic => rw [hp] at h; simp [Res.isOk] at h
+    | ok v =>
+      unfold Stmt.parse at hp
+      simp only at hp
+      split at hp; · cases hp
+      rename_i hfirst
+      split at hp; · cases hp
+      rename_i hk5
+      obtain ⟨_, hd, hp⟩ := bind_ok_inv hp
+      have hd' := guard_ok hd
+      obtain ⟨n, hn, hp⟩ := bind_ok_inv hp
+      obtain ⟨nl, nne, _, _, _⟩ := numRead hk5 hd' hn
+      have h1 : 1 ≤ (splitAtFirst '/' s).1.length := by
+        cases hx : (splitAtFirst '/' s).1 with
+        | nil => exact absurd hx nne
+        | cons _ _ => simp
+      split at hp
+      · rename_i t ht
+        split at hp; · cases hp
+        rename_i hk2
+        obtain ⟨_, hd2, hp⟩ := bind_ok_inv hp
+        have hd2' := guard_ok hd2
+        obtain ⟨q, hq, hp⟩ := bind_ok_inv hp
+        obtain ⟨ql, qne, _, _, _⟩ := numRead hk2 hd2' hq
+        have hshape : s = (splitAtFirst '/' s).1 ++ '/' :: t := by
+          unfold splitAtFirst at ht ⊢
+          cases hf : findChar '/' s with
+          | none => rw [hf] at ht; simp at ht
+          | some p =>
+            rw [hf] at ht
+            simp only at ht ⊢
+            split at ht
+            · cases ht
+            · cases ht
+              exact (findChar_split hf).1
+        refine ⟨_, h1, nl, fun c hc => List.all_eq_true.mp hd' c hc, Or.inr ⟨t, hshape, ?_, ql, fun c hc => List.all_eq_true.mp hd2' c hc⟩⟩
+        cases hx : t with
+        | nil => exact absurd hx qne
+        | cons _ _ => simp
+      · rename_i hnone
+        -- no sequence number: the text has no slash at all, so the number is the whole text
+        have hst : (splitAtFirst '/' s).1 = s := by
+          have hc : s.contains '/' = false := by
+            have : ¬ (((splitAtFirst '/' s).2.isNone && s.contains '/') = true) := hfirst
+            rw [hnone] at this
+            simpa using this
+          unfold splitAtFirst
+          cases hf : findChar '/' s with
+          | none => rfl
+          | some p =>
+            exfalso
+            have hm : '/' ∈ s := by
+              have := (findChar_split hf).1
+              rw [this]; simp
+            have : s.contains '/' = true := List.contains_iff_mem.mpr hm
+            rw [hc] at this; cases this
+        rw [hst] at h1 nl hd'
+        exact ⟨s, h1, nl, fun c hc => List.all_eq_true.mp hd' c hc, Or.inl rfl⟩
+  · rintro ⟨a, a1, a5, ad, hs⟩
+    have adall : a.all Char.isDigit = true := List.all_eq_true.mpr ad
+    have ane : a ≠ [] := by intro he; subst he; simp at a1
+    have aasc := all_digit_ascii a adall
+    have alt := digitsVal_lt a 0 (by rw [← all_isDigit_iff]; exact adall)
+    have pa : 10 ^ a.length ≤ 10 ^ 5 := Nat.pow_le_pow_right (by decide) a5
+    have amax : digitsVal a 0 ≤ u32Max := by unfold u32Max; omega
+    have ha5 : ¬ blen a > 5 := by rw [blen_ascii a aasc]; omega
+    have ano := digits_no_slash a ad
+    rcases hs with rfl | ⟨b, rfl, b1, bk, bd⟩
+    · unfold Stmt.parse
+      simp only
+      have hsp : splitAtFirst '/' s = (s, none) := by unfold splitAtFirst; rw [findChar_none _ ano]
+      rw [hsp]
+      simp only [contains_false_of_ne _ _ ano, Bool.and_false, Bool.false_eq_true, if_false, ha5, parseNumeric, Res.guard, adall,
+        if_true, Res.bind_ok, parseUInt_digits ane amax, Res.pure_eq]
+      rfl
+    · have bdall : b.all Char.isDigit = true := List.all_eq_true.mpr bd
+      have bne : b ≠ [] := by intro he; subst he; simp at b1
+      have basc := all_digit_ascii b bdall
+      have blt := digitsVal_lt b 0 (by rw [← all_isDigit_iff]; exact bdall)
+      have pb : 10 ^ b.length ≤ 10 ^ k := Nat.pow_le_pow_right (by decide) bk
+      have bmax : digitsVal b 0 ≤ mx := by omega
+      have hbk : ¬ blen b > k := by rw [blen_ascii b basc]; omega
+      unfold Stmt.parse
+      simp only
+      rw [splitAtFirst_append '/' a b ano bne]
+      simp only [Option.isNone_some, Bool.false_and, Bool.false_eq_true, if_false, ha5, parseNumeric, Res.guard, adall, if_true,
+        Res.bind_ok, parseUInt_digits ane amax, hbk, bdall, parseUInt_digits bne bmax, Res.pure_eq]
+      rfl
+
+/-- 28 `5n[/2n]` and 28C `5n[/5n]` -/
+theorem accepts_iff_28 (s : Text) : (F28.parse s).isOk = true ↔ DocStmt 2 s :=
+  accepts_iff_stmt 2 255 (by decide) (by decide) s
+theorem accepts_iff_28C (s : Text) : (F28C.parse s).isOk = true ↔ DocStmt 5 s :=
+  accepts_iff_stmt 5 u32Max (by decide) (by decide) s
+
 end SwiftMT.Props.C05
